@@ -780,6 +780,10 @@ pub fn gen_c09(rng: &mut Rng, tier: Tier) -> NetProgram {
         if rng.chance(1, 3) {
             m.start_acts = (0..1 + rng.small(2)).map(|_| Act::Send { gate: rng.below(5) as u32, delay_ns: if rng.chance(1, 4) { 250_000_000 } else { 0 }, body: 1 }).collect();
         }
+        // a module that "boots late": it requests its shutdown (with restart) from the start-up callback itself
+        if rng.chance(1, 12) {
+            m.start_acts.push(Act::Shutdown { restart: (1 + rng.below(4)) as i64 * 250_000_000, at: false });
+        }
         // processing elements that merely observe: they are part of the module's message handling, so they see nothing
         // while the module is down either
         if rng.chance(1, 4) {
